@@ -1,3 +1,4 @@
 //! C01 — caches never change what a collector's own filter decides (DESIGN.md 5/C01)
 const CAP: usize = 5; // no compile-time level cap in this build
+const CAP_BUILD: bool = false;
 include!("../c01_body.rs");
